@@ -1,6 +1,7 @@
 (* C09 -- Integer literals keep their exact value through print and parse. *)
 From Coq Require Import List Bool NArith ZArith.
 From LLIR Require Import Lib.Bytes Lib.Radix Model.IntLit Proofs.IntLitProofs.
+From LLIR Require Proofs.IntLitRefinement.
 Import ListNotations.
 Local Open Scope Z_scope.
 
@@ -38,3 +39,14 @@ Example C09_example_values :
   parse_int 16 (p_s0x ++ print_hex_N 65535) = Ok (-1) /\ parse_int 16 (p_u0x ++ print_hex_N 65535) = Ok 65535
   /\ ident (fun _ => true) 32 65536 = Ok (p_u0x ++ print_hex_N 65536) /\ ident (fun _ => true) 32 (-7) = Ok (print_Z (-7)).
 Proof. vm_compute. repeat split. Qed.
+
+(* the tie by regeneration: constant.NewIntFromString as it stands in ir/constant/const_int.go (translated into
+   Gen/Printers.v on every run, evaluated by Model/GoEval.v; the five math/big methods it uses carry their
+   mathematical meaning, IntLitRefinement.ext) computes exactly what the model parse_int computes, for every
+   width but 0 and every text, accepted or not: an i1 keyword returns the shared True / False object, u0x / s0x /
+   decimal return a new constant of the given type with the model's value, everything else the error result.
+   The statements above about parse_int are therefore statements about the code *)
+Theorem C09_generated_constructor_is_the_model : forall w s, (0 < w)%N ->
+  IntLitRefinement.new_int_from_string w s = IntLitRefinement.expected w s.
+Proof. exact IntLitRefinement.generated_new_int_is_parse_int. Qed.
+Print Assumptions C09_generated_constructor_is_the_model.
